@@ -528,6 +528,53 @@ func lsFamilies(c *eng.Ctx, sub string, run func(lsCase, *eng.Ctx) *eng.Fail, re
 		c.Capped("family images cut by deadline")
 	}
 	c.Subspace("family-images", c.Evals()-before, false, fmt.Sprintf("sizes %v x comps x P{2,7,8,9,12,15,16} x 8 structured contents (incl. long runs with rare interruptions: high run index)", sizes))
+
+	// run-index ladder: the run-length order J[RUNindex] climbs one step per completed run segment and stops at 31;
+	// 65 820 consecutive run samples with a line at least 32 768 wide are needed to reach the top and try one more step
+	type lj struct{ w, h, c, p, near, k int }
+	var ljs []lj
+	for _, sz := range [][2]int{{65535, 2}, {40000, 3}, {32768, 4}, {65535, 1}} {
+		for _, nc := range []int{1, 3} {
+			for _, p := range []int{8, 12, 16} {
+				for _, near := range nears(p) {
+					for k := 0; k < 3; k++ {
+						if nc == 3 && (sz[1] > 2 || k == 2) {
+							continue
+						}
+						ljs = append(ljs, lj{sz[0], sz[1], nc, p, near, k})
+					}
+				}
+			}
+		}
+	}
+	before = c.Evals()
+	done = c.Par(len(ljs), func(i int) {
+		j := ljs[i]
+		max := 1<<uint(j.p) - 1
+		s := make([]int, j.w*j.h*j.c)
+		switch j.k {
+		case 1: // constant, one outlier in the last line after the ladder has been climbed
+			for i := range s {
+				s[i] = max / 2
+			}
+			s[len(s)-j.c*7] = max
+		case 2: // two long runs of different value
+			for i := range s {
+				if i >= len(s)/2+11 {
+					s[i] = max
+				}
+			}
+		}
+		a := lsCase{W: j.w, H: j.h, C: j.c, P: j.p, Near: j.near, S: s}
+		c.Eval(1)
+		if f := eng.Guard(func() *eng.Fail { return run(a, c) }); f != nil {
+			eng.Recheck(c, sub, a, reg)
+		}
+	})
+	if !done {
+		c.Capped("run-index ladder cut by deadline")
+	}
+	c.Subspace("run-index-ladder", c.Evals()-before, done, "sizes {65535x2, 40000x3, 32768x4, 65535x1} x comps {1,3} x P {8,12,16} x NEAR list x {constant, constant with one late outlier, two long runs}: RUNindex reaches 31 and the coder is asked to climb further")
 }
 
 func zeroNear(int) []int { return []int{0} }
@@ -536,8 +583,8 @@ func c03(c *eng.Ctx) {
 	c.Rule("E1: full products: all images <= 3x3 at P=2, all 2x2 at P=4, all <= 5-6 samples at P=3, every P in 2..16 with every image of <= 6 samples (and 1xn/nx1, n<=7/8) over {0,1,MAX-1,MAX}, 3-component (ILV 2) images over the same alphabets; every sequence of <= 3 macro-ops wrapped into widths {1,2,3,8,70}. distinct = distinct streams; non-trivial = the stream contains >= 1 run interruption or >= 1 LIMIT escape code (measured by the reference decoder on the same stream)")
 	c.Assume("samples occupy the low P bits of the container")
 	lsRunBlocks(c, "C03.roundtrip", lsBlocksLossless(c), lsLossless, lsLosslessFn, "small-images", "full product of contents over the block alphabet")
-	lsMacro(c, "C03.roundtrip", lsLossless, lsLosslessFn, zeroNear)
 	lsFamilies(c, "C03.roundtrip", lsLossless, lsLosslessFn, zeroNear)
+	lsMacro(c, "C03.roundtrip", lsLossless, lsLosslessFn, zeroNear)
 	c.Sample(map[string]any{"W": 2, "H": 1, "C": 1, "P": 10, "S": []int{1022, 1023}})
 	c.Sample(map[string]any{"W": 3, "H": 3, "C": 1, "P": 2, "S": []int{0, 3, 0, 3, 0, 3, 3, 3, 0}})
 }
@@ -562,17 +609,17 @@ func c07(c *eng.Ctx) {
 		}
 		return l
 	}
-	lsMacro(c, "C07.bound", lsNear, lsNearFn, func(p int) []int {
-		l := nl(p)
-		if c.Quick() && len(l) > 3 {
-			return []int{l[1], l[len(l)-1]}
-		}
-		return l
-	})
 	lsFamilies(c, "C07.bound", lsNear, lsNearFn, func(p int) []int {
 		l := nl(p)
 		if len(l) > 4 {
 			return []int{l[0], l[1], l[3], l[len(l)-1]}
+		}
+		return l
+	})
+	lsMacro(c, "C07.bound", lsNear, lsNearFn, func(p int) []int {
+		l := nl(p)
+		if c.Quick() && len(l) > 3 {
+			return []int{l[1], l[len(l)-1]}
 		}
 		return l
 	})
@@ -598,17 +645,17 @@ func c14(c *eng.Ctx) {
 	lsRunBlocks(c, "C14.conformance", lsBlocksLossless(c), lsConform, lsConformFn, "small-images-lossless", "C03 small-image space")
 	lsRunBlocks(c, "C14.conformance", lsBlocksNear(c, true), lsConform, lsConformFn, "all-near-values", "C07 all-NEAR space")
 	lsRunBlocks(c, "C14.conformance", lsBlocksNear(c, false), lsConform, lsConformFn, "boundary-near-values", "C07 boundary-NEAR space incl. 3 components")
-	lsMacro(c, "C14.conformance", lsConform, lsConformFn, func(p int) []int {
-		l := nearList(c, p)
-		if len(l) > 3 {
-			return []int{0, l[1], l[len(l)-1]}
-		}
-		return l
-	})
 	lsFamilies(c, "C14.conformance", lsConform, lsConformFn, func(p int) []int {
 		l := nearList(c, p)
 		if len(l) > 2 {
 			return []int{0, l[2]}
+		}
+		return l
+	})
+	lsMacro(c, "C14.conformance", lsConform, lsConformFn, func(p int) []int {
+		l := nearList(c, p)
+		if len(l) > 3 {
+			return []int{0, l[1], l[len(l)-1]}
 		}
 		return l
 	})
